@@ -642,7 +642,10 @@ func FuzzyMatchV2(caseSensitive bool, normalize bool, forward bool, input *util.
 				}
 				i--
 			}
-			preferMatch = C[I+j0] > 1 || I+width+j0+1 < len(C) && C[I+width+j0+1] > 0
+			// Look at the cell diagonally below only if this call has written it:
+			// cells left of the first occurrence (F) of the next pattern character
+			// hold whatever was left in the slab
+			preferMatch = C[I+j0] > 1 || I+width+j0+1 < len(C) && j0+1 < width && j+1 >= int(F[I/width+1]) && C[I+width+j0+1] > 0
 			j--
 		}
 	}
